@@ -58,7 +58,7 @@ def run(tier, seed, replay=None):
                 "exports those of <= ExportOps operations; every exported history is replayed on the real daemon (every 4th one against a reachable "
                 "node, plain or TLS, the others against an unreachable node so that replies are deterministic), histories with the same restart "
                 "positions share the daemon restarts; distinct = distinct (key classes, tls, operations, reachable)" % cfg,
-        "samples": res["samples"][:5], "exhaustive": True, "histories": nvec,
+        "samples": (res.get("samples") or [{"note": "run stopped before sampling"}])[:5], "exhaustive": True, "histories": nvec,
         "counters": c, "witnesses": wit, "notes": res.get("notes") or [],
         "tlc": {"spec": "ControlSession.tla", "cfg": cfg, "generated": r.generated, "distinct": r.distinct, "wall_s": round(r.wall, 1)},
     }
